@@ -148,7 +148,7 @@ func checkC12(c *Ctx, w *World) {
 	isCSField := func(field string) vpred {
 		return func(v ssa.Value) bool {
 			f, base, ok := loadedField(v)
-			return ok && f == field && base == ssa.Value(cs0)
+			return ok && f == field && isParamValue(base, cs0)
 		}
 	}
 	sAtoms := []atomDef{
@@ -249,7 +249,7 @@ func checkC12(c *Ctx, w *World) {
 	rField := func(field string) vpred {
 		return func(v ssa.Value) bool {
 			f, base, ok := loadedField(v)
-			if !ok || f != field || base != ssa.Value(r0) {
+			if !ok || f != field || !isParamValue(base, r0) {
 				return false
 			}
 			ld, _ := stripConv(v).(ssa.Instruction)
@@ -276,7 +276,7 @@ func checkC12(c *Ctx, w *World) {
 		if call, isC := res.(*ssa.Call); isC && call.Call.IsInvoke() && call.Call.Method.Name() == "RecvMsg" {
 			nDel++
 			f, base, ok := loadedField(call.Call.Value)
-			if !ok || f != "gcpClientStream.ClientStream" || base != ssa.Value(r0) || call.Call.Args[0] != ssa.Value(recv.Params[1]) {
+			if !ok || f != "gcpClientStream.ClientStream" || !isParamValue(base, r0) || !isParamValue(call.Call.Args[0], recv.Params[1]) {
 				okRecv = false
 			}
 			// reached only when no error and a stream exists
@@ -388,4 +388,14 @@ func sameHold(lf *LockFacts, a, b ssa.Instruction) bool {
 		}
 	})
 	return !bad
+}
+
+// isParamValue: v is the parameter itself or a load of the cell it was spilled into (a parameter captured by a
+// closure lives in a heap cell that is assigned exactly once, from the parameter).
+func isParamValue(v ssa.Value, prm *ssa.Parameter) bool {
+	v = stripConv(v)
+	if v == ssa.Value(prm) {
+		return true
+	}
+	return originsAll(v, func(o Origin) bool { return o.Val == ssa.Value(prm) })
 }
